@@ -7,6 +7,8 @@ quantified over all chunkings).  Python holds the property oracle (a sorted list
 import re
 from . import common as C
 
+PARAM_SECTIONS = ["table"]
+
 MODEL_TARGETS = ["theories/Codec/Table.vo", "theories/Codec/Bloom.vo", "theories/Codec/Separator.vo"]
 TRUSTED = [
     "blocks are modelled as entry lists: prefix compression, varints, restart array, snappy and the block checksum are exercised "
